@@ -295,7 +295,7 @@ def ensure_built(profiles):
     """Rebuild what depends on /repo (the harness) always; the Coq side when stale."""
     logs = {}
     ok_coq, log = build.build_coq()
-    logs["coq"] = log[-2000:]
+    logs["coq"] = log if len(log) <= 2000 else log[:700] + "\n...\n" + log[-1300:]
     # the driver is built from the extracted model whenever there is one: when some proof file no longer compiles the model
     # itself usually still does, and the differential run is what looks for the failing input then
     ok_drv, log = build.build_driver()
@@ -333,6 +333,11 @@ def run_check(mod, tier, seed):
     audit = audit_proofs(mod.THEOREM_FILE)
     if not ok_coq and audit["problems"]:
         audit["problems"] = audit["problems"] + ["coq build failed: " + logs.get("coq", "")[-800:]]
+    if logs.get("coq", "").startswith("tools/tables.py failed") and \
+            "Gen.SourceTables" in open(os.path.join(build.COQ, mod.THEOREM_FILE)).read():
+        # the translator could not read the source: coq/Gen/SourceTables.v is stale, and the theorems that say "the model's
+        # tables are the source's" are about the old text
+        audit["problems"] = audit["problems"] + ["the tie to the source's tables is broken: " + logs["coq"].split("\n")[0][:400]]
     if ok_coq and tier == "thorough":
         cp = coqchk_audit(mod.THEOREM_FILE)
         audit["coqchk"] = "ok" if not cp else cp
